@@ -101,7 +101,7 @@ theorem sliceByLine_slow (cfg : Config) (m : MatcherI) (inp : Bytes) (hbin : cfg
   rw [detectBinary_none hbin rfl]
   by_cases hne : inp = []
   · subst hne
-    simp [sliceLoop, st0, Core.new, finish, emit_allCont, byteCount, Run.events, grepSpec, splitLines,
+    simp [sliceLoop, st0, Core.new, finish, emit_allCont, byteCount, ite_self, Run.events, grepSpec, splitLines,
       grepSpecLines, effective, stopTrunc, offsetAt]
   · obtain ⟨st', b, e1, hpos, hbo, hev⟩ := slow_run (cfg := cfg) m inp hbin hne
     have hfast : isLineByLineFast cfg m (st0 cfg) = false := by
@@ -123,7 +123,7 @@ theorem sliceByLine_slow (cfg : Config) (m : MatcherI) (inp : Bytes) (hbin : cfg
           rw [← hl]; simp
     dsimp only
     rw [hloop]
-    simp only [finish, emit_allCont, byteCount, hbo, Run.events]
+    simp only [finish, emit_allCont, byteCount, ite_self, hbo, Run.events]
     exact ⟨hev, trivial⟩
 
 end RgVerif.Searcher
